@@ -46,6 +46,16 @@ func (x *Exec) callFn(callee *ssa.Function, bind []Value, args []Value, st *Stat
 			return r
 		}
 	}
+	if callee.Name() == "vsGhostMem" && len(args) == 1 {
+		// ghost built-in: the interface value is governed by the interface
+		// call rule (an opaque, user-supplied Memory), i.e. g describes it
+		if iv, ok := args[0].(*IfaceV); ok {
+			if iv.Opaque != "" && iv.Dyn == nil {
+				return x.b.Not(x.ifaceNil(iv))
+			}
+			return x.b.False()
+		}
+	}
 	if r, ok := x.stub(callee, args, st, pc); ok {
 		return r
 	}
